@@ -1,6 +1,7 @@
 package main
 
 import (
+	"encoding/json"
 	"flag"
 	"fmt"
 	"os"
@@ -29,6 +30,20 @@ func (c *Ctx) Thorough() bool { return c.Tier == "thorough" }
 var props = map[string]func(*Ctx){}
 
 func main() {
+	if len(os.Args) > 1 && os.Args[1] == "anchors" {
+		repo := "/repo"
+		if len(os.Args) > 2 {
+			repo = os.Args[2]
+		}
+		p, err := LoadRepo(repo)
+		if err != nil {
+			fmt.Println("LOAD ERROR", err)
+			os.Exit(2)
+		}
+		b, _ := json.MarshalIndent(p.Anchors(), "", " ")
+		fmt.Println(string(b))
+		return
+	}
 	if len(os.Args) > 1 && os.Args[1] == "corpusdump" {
 		corpusDumpMain(os.Args[2:])
 		return
@@ -63,6 +78,7 @@ func main() {
 			*tier = t
 		}
 	}
+	os.Setenv("VERIF_DIR", *verif)
 	os.Exit(runProp(*prop, fn, *repo, *verif, *tier, seed))
 }
 
